@@ -76,6 +76,8 @@ def run_profile(tid, ballots, rng):
         votes = {}
         if b["has"]:
             votes["con"] = encode(b, rng, CANDS)
+            if not b["m"] and rng.random() < 0.4:
+                votes["con"]["write-in"] = rng.choice(TRUTHY)    # an option that is not a listed candidate: no vote
         if rng.random() < 0.5:
             votes["other"] = {"X": 1}
         cvrs.append(CVR(id=f"c{k}", votes=votes))
@@ -88,12 +90,16 @@ def run_profile(tid, ballots, rng):
                                   "candidates": list(CANDS), "winner": winner or ["A"],
                                   "audit_type": Audit.AUDIT_TYPE.POLLING, "test": NonnegMean.alpha_mart,
                                   "estim": NonnegMean.fixed_alternative_mean, "use_style": True})
-    # tallies
+    # tallies (a contest may have been tabulated before, on other cards; the tally object keeps every marked option)
+    full = {}
     for key, k, enforce in (("tally_raw", 1, False), ("tally_k1", 1, True), ("tally_k2", 2, True)):
         con = contest(Contest.SOCIAL_CHOICE_FUNCTION.PLURALITY, k=k)
 
-        def t(con=con, enforce=enforce):
+        def t(con=con, enforce=enforce, key=key):
+            if rng.random() < 0.5:
+                Contest.tally({"con": con}, cvrs[: rng.randint(1, len(cvrs))], enforce_rules=rng.random() < 0.5)
             Contest.tally({"con": con}, cvrs, enforce_rules=enforce)
+            full[key] = con.tally
             return {c: int(con.tally[c]) for c in CANDS}
         rec[key] = guard(key, t, default={c: -1 for c in CANDS})
     # plurality pairs (built through winner sets of size 1 and 2, the union covers every ordered pair)
@@ -121,7 +127,14 @@ def run_profile(tid, ballots, rng):
 
                 def tm(cards):
                     con.cards = cards
-                    a.find_margin_from_tally(rec["tally_raw"])
+                    route = rng.randrange(3) if "tally_raw" in full else 0
+                    if route == 0:
+                        a.find_margin_from_tally(rec["tally_raw"])
+                    elif route == 1:
+                        a.find_margin_from_tally(full["tally_raw"])
+                    else:
+                        con.tally = full["tally_raw"]
+                        a.find_margin_from_tally()
                     return rs(a.margin)
                 e["tmargin_style"] = guard("plur.tally_margin", lambda: tm(n_style)) if n_style else "nan"
                 e["tmargin_all"] = guard("plur.tally_margin", lambda: tm(len(cvrs)))
@@ -149,7 +162,14 @@ def run_profile(tid, ballots, rng):
             e["mean_all"] = guard("super.mean", lambda: rs(a.assorter.mean(cvrs, use_style=False)))
 
             def tm():
-                a.find_margin_from_tally(rec["tally_k1"])
+                route = rng.randrange(3) if "tally_k1" in full else 0
+                if route == 0:
+                    a.find_margin_from_tally(rec["tally_k1"])
+                elif route == 1:
+                    a.find_margin_from_tally(full["tally_k1"])
+                else:
+                    con.tally = full["tally_k1"]
+                    a.find_margin_from_tally()
                 return rs(a.margin)
             e["tmargin_style"] = guard("super.tally_margin", tm) if n_style else "nan"
             rec["super"].append(e)
